@@ -499,12 +499,18 @@ where
         let qual_len = self.buf_pos.pos.1 - self.buf_pos.qual + 1;
         let seq_len = self.buf_pos.sep - self.buf_pos.seq;
         if seq_len != qual_len {
-            self.state = State::Finished;
-            return Err(Error::UnequalLengths {
-                seq: self.buf_pos.seq(self.get_buf()).len(),
-                qual: self.buf_pos.qual(self.get_buf()).len(),
-                pos: self.get_error_pos(0, true),
-            });
+            // The raw line lengths differ, but this may only be due to the line
+            // terminators (CRLF input without terminator after the last line)
+            let seq = self.buf_pos.seq(self.get_buf()).len();
+            let qual = self.buf_pos.qual(self.get_buf()).len();
+            if seq != qual {
+                self.state = State::Finished;
+                return Err(Error::UnequalLengths {
+                    seq,
+                    qual,
+                    pos: self.get_error_pos(0, true),
+                });
+            }
         }
         Ok(())
     }
